@@ -12,6 +12,7 @@ import (
 	"path/filepath"
 	"regexp"
 	"strings"
+	"sync"
 
 	"github.com/goatcms/goatcore/app/modules/commonm/commservices"
 	"github.com/goatcms/goatcore/app/modules/commonm/commservices/envs"
@@ -191,6 +192,102 @@ func cmdEnvCases(args []string) error {
 		}
 	}
 	out := map[string]interface{}{"executed": executed, "calls": shells, "failures_by_key": byKey, "examples": examples, "samples": samples}
+	b, _ := json.Marshal(out)
+	fmt.Println(string(b))
+	return nil
+}
+
+func init() { commands["envwitness"] = cmdEnvWitness }
+
+// envwitness: ONE Environments object used the way a long-running application uses it -- values are replaced
+// (Set) while start-up scripts for other sandboxes are being built from it (All / InitSequence) -- with a LARGE
+// environment.  Once everything has come to rest, the next script must set every variable to the value that
+// Get returns now (the script builders read the map through All).
+func cmdEnvWitness(args []string) error {
+	fl := flag.NewFlagSet("envwitness", flag.ExitOnError)
+	rounds := fl.Int("rounds", 40, "rounds")
+	vars := fl.Int("vars", 1000, "padding variables")
+	tmp := fl.String("tmp", "", "scratch")
+	fl.Parse(args)
+	byKey := map[string]int{}
+	examples := map[string][]map[string]string{}
+	fail := func(key, op, what string) {
+		byKey[key]++
+		if len(examples[key]) < 3 {
+			examples[key] = append(examples[key], map[string]string{"key": key, "op": op, "backend": "envs", "what": what})
+		}
+	}
+	executed := 0
+	for _, kind := range []string{"container", "ssh"} {
+		e := envs.NewEnvironments()
+		all := map[string]string{"TOKEN": "initial"}
+		for i := 0; i < *vars; i++ {
+			// (names are letters and underscores)
+			all["PAD_"+string(rune('A'+i/676%26))+string(rune('A'+i/26%26))+string(rune('A'+i%26))] = fmt.Sprintf("padding value %d", i)
+		}
+		if err := e.SetAll(all); err != nil {
+			return err
+		}
+		for r := 0; r < *rounds; r++ {
+			executed++
+			want := fmt.Sprintf("value-of-round-%d", r)
+			var wg sync.WaitGroup
+			start := make(chan struct{})
+			wg.Add(2)
+			// one side reads the whole environment over and over (what every script build starts with), the other
+			// replaces the value a few times; the LAST replacement is the configured value
+			go func() {
+				defer wg.Done()
+				<-start
+				for k := 0; k < 300; k++ {
+					e.All()
+				}
+				buildScript(kind, e)
+			}()
+			go func() {
+				defer wg.Done()
+				<-start
+				for j := 0; j < 20; j++ {
+					e.Set("TOKEN", fmt.Sprintf("%s-step-%d", want, j))
+					for spin := 0; spin < (r%5)*300; spin++ {
+						_ = spin
+					}
+				}
+				e.Set("TOKEN", want)
+			}()
+			close(start)
+			wg.Wait()
+			if got := e.Get("TOKEN"); got != want {
+				fail("infra", kind, fmt.Sprintf("Get(TOKEN) = %q after Set(%q)", got, want))
+				continue
+			}
+			script, err := buildScript(kind, e)
+			if err != nil {
+				fail("infra", kind, err.Error())
+				continue
+			}
+			// grammar layer: the TOKEN block of the script
+			m := regexp.MustCompile(`TOKEN=\$\(cat <<'([A-Za-z0-9_]+)'\n((?s:.*?))\n([A-Za-z0-9_]+)\n\)`).FindStringSubmatch(script)
+			inScript := "<no TOKEN block>"
+			if m != nil {
+				inScript = m[2]
+			}
+			if inScript != want {
+				// the real shell decides
+				dir, err := ioutil.TempDir(*tmp, "shw")
+				if err != nil {
+					return err
+				}
+				got, stderr, runErr := runShell(dir, script, []string{"TOKEN"})
+				os.RemoveAll(dir)
+				if got["TOKEN"] != want {
+					fail("stale-value:"+kind, fmt.Sprintf("round %d, %d variables", r, *vars+1), fmt.Sprintf("after Set(TOKEN, %q) had returned (Get answers it), the next start-up script gives the shell TOKEN=%q (script block %q; err %v %q)", want, got["TOKEN"], inScript, runErr, stderr))
+					break
+				}
+			}
+		}
+	}
+	out := map[string]interface{}{"executed": executed, "failures_by_key": byKey, "examples": examples, "samples": []string{}}
 	b, _ := json.Marshal(out)
 	fmt.Println(string(b))
 	return nil
